@@ -25,6 +25,25 @@ def gen_inputs(ctx):
     for k, kc in (sc if not q else rng.sample(sc, 10)):
         for i in (NORMAL if not q else rng.sample(NORMAL, 2)):
             out.append(("CkdPub", {"par": pub_parent(rng, k), "i": idx4(i)}, ("pub", kc, i)))
+    # children whose public key has an x coordinate with a leading zero byte (about 1 in 256): searched
+    # with the harness's own BIP32 walk, then derived publicly by the code (single step and onward)
+    from .. import refwallet as W
+    found = 0
+    for k, kc in rng.sample(sc, 3):
+        par = parent(rng, k, depth=rng.choice([0, 1, 3]))
+        tab = R.Table()
+        rpar = W.RNode(bytes(par["k"]), R.pubkey(k), bytes(par["c"]), par["depth"], int.from_bytes(bytes(par["idx"]), "big"),
+                       bytes(par["pfp"]), par["net"])
+        for i in range(0, 1200 if q else 4000):
+            ch = W.ckd_priv(tab, rpar, i)
+            if ch is not None and ch.K[1] == 0:
+                pp = pub_parent(rng, k)
+                pp.update({"c": par["c"], "depth": par["depth"], "idx": par["idx"], "pfp": par["pfp"], "net": par["net"]})
+                out.append(("CkdPub", {"par": pp, "i": idx4(i)}, ("pub-child-x-leading-zero",)))
+                out.append(("Agree", {"root": par, "path": [idx4(i), idx4(rng.randrange(2 ** 31)), idx4(0)]}, ("agree-through-x-leading-zero",)))
+                found += 1
+                break
+    ctx.notes["children_with_leading_zero_x_found"] = found
     # refusal clause: hardened indexes from public-only data
     hard = [2 ** 31, 2 ** 31 + 1, 2 ** 32 - 1, 2 ** 32 - 2] + [rng.randrange(2 ** 31, 2 ** 32) for _ in range(6 if q else 60)]
     for i in hard:
@@ -75,6 +94,8 @@ def run(ctx):
            coverage=True, label="action-label run (reduced alphabet)")
     ctx.require_actions("MC_Bip32", ["Derive", "Commit"])
     events = core.build_events(ctx, gen_inputs(ctx))
+    events += core.suite_events(ctx, ["tests/test_bip32.py", "tests/test_base_wallet.py", "tests/test_bip49.py"],
+                                ("CkdPub",), len(events), limit=150 if ctx.quick else 3000)
     for e in events[:1] + events[-2:]:
         ctx.sample({"call": describe(e), "res": str(e["res"])[:240]})
     rj = ctx.validate(MODULE, events, min_shard=20)
